@@ -12,7 +12,10 @@ META = dict(
          "decoded JSON and the CGI variables must equal the inputs.  Responses: 6 statuses x 3 header sets x 8 body kinds (lists, generators "
          "with empty yields, StopIteration value, write() callable, binary) x with/without Content-Length x chunkable or not, plus HTTPError "
          "raised at call time / first next / after an empty yield (4 statuses x reasons x header sets), are served by Responder and parsed by "
-         "Respondent; status, reason, headers and body must equal what the application produced.",
+         "Respondent; status, reason, headers and body must equal what the application produced.  Reuse: every ordered pair of 12 response "
+         "kinds (fixed, chunked, generator streamed / fixed, empty, StopIteration value, write(), binary, HTTPError at three sites) x chunkable "
+         "combinations is served by ONE Responder that is reset between the two the way Valet does on a persistent connection and parsed by ONE "
+         "re-armed Respondent; both responses must equal what the application produced and leave no bytes behind.",
     note="Pure product of small sets, no sockets and no arrival schedules (C29 covers those); multipart form bodies, header values outside "
          "latin-1, duplicate header names, HEAD responses and HTTPError raised after the head was sent are not exercised.  GET requests "
          "carry no body by ioflo's documented design, so the expected body for GET is empty.",
@@ -365,33 +368,173 @@ def work_responses(arg):
     return part
 
 
+
+# --------------------------------------------------------------------------- reused Responder: ordered pairs
+
+PAIRKINDS = [          # label, ("app", body kind, Content-Length declared) | ("err", raise site)
+    ("fixed", ("app", "list1", True)),
+    ("chunked", ("app", "list1", False)),
+    ("gen-streamed", ("app", "gen", False)),
+    ("gen-fixed", ("app", "gen", True)),
+    ("empty", ("app", "empty-list", False)),
+    ("empty-fixed", ("app", "empty-list", True)),
+    ("stopiteration-value", ("app", "gen-return", False)),
+    ("write-callable", ("app", "write", False)),
+    ("binary-fixed", ("app", "binary", True)),
+    ("error-at-call", ("err", "call")),
+    ("error-at-first-next", ("err", "first-next")),
+    ("error-after-empty-yield", ("err", "after-empty-yield")),
+]
+
+
+def pair_member(which, spec):
+    """-> (sub app, expected status, expected headers, expected body) for response number `which`."""
+    tag = "first" if which == 0 else "second"
+    if spec[0] == "app":
+        status = "200 OK" if which == 0 else "201 Created"
+        app, hdrs, body = make_app(status, [("Content-Type", "text/plain"), ("X-Which", tag)], spec[1], spec[2])
+        return app, status, hdrs, body
+    code, reason = (404, "") if which == 0 else (500, "Custom Failure")
+    app, status, hdrs, body = make_error_app(code, reason, {"X-Which": tag}, spec[1])
+    return app, status, hdrs + [("Content-Length", str(len(body)))], body
+
+
+def pair_case(case, specs, chunkables, part, replay):
+    """One Responder serves two responses, reset between them the way Valet.serviceReqs does on a
+    persistent connection; one Respondent parses both, re-armed the way Patron does."""
+    import inspect
+    from ioflo.aio.http import clienting, serving
+    from ioflo.aio.tcp import serving as tcpserving
+    members = [pair_member(i, specs[i]) for i in (0, 1)]
+
+    def app(environ, start):       # one application object per connection, dispatching on the request
+        return members[environ["verif.which"]][0](environ, start)
+
+    ix = tcpserving.Incomer(ha=("127.0.0.1", 8080), ca=("127.0.0.1", 50001), cs=None, store=STORE[0])
+    buf = bytearray()
+    r = clienting.Respondent(msg=buf, method="GET")
+    rp = None
+    for which in (0, 1):
+        sub, status, hdrs, body = members[which]
+        chunkable = chunkables[which]
+        tagw = "first" if which == 0 else "second"
+
+        def bad(field, what):
+            part.violation("response-reused|%s|%s" % (tagw, field), case,
+                           "reused Responder %s, %s response: %s" % (case, tagw, what), replay)
+
+        environ = {"REQUEST_METHOD": "GET", "PATH_INFO": "/", "verif.which": which,
+                   "SERVER_PROTOCOL": "HTTP/1.1" if chunkable else "HTTP/1.0"}
+        if rp is None:
+            rp = serving.Responder(incomer=ix, app=app, environ=environ, chunkable=chunkable)
+        else:
+            if "chunkable" in inspect.signature(rp.reset).parameters:
+                rp.reset(environ=environ, chunkable=chunkable)      # Valet.serviceReqs, reuse branch
+            else:
+                rp.reset(environ=environ)
+        calls = 0
+        try:
+            while not rp.ended and calls < 20:
+                rp.service()
+                calls += 1
+        except Exception as ex:
+            bad("raises:%s|%s" % (type(ex).__name__, innermost(ex)), "Responder.service raised %r" % ex)
+            return "service-raises"
+        if not rp.ended:
+            bad("never-ends", "Responder not ended after %d service() calls" % calls)
+            return "never-ends"
+        wire = b"".join(bytes(t) for t in ix.txes)
+        ix.txes.clear()
+        replay["wire_%s" % tagw] = wire
+        delimited = chunkable or any(k.lower() == "content-length" for k, v in hdrs)
+        if which == 1:                       # Patron: makeParser() after a response, reinit() at the next transmit
+            r.makeParser()
+            r.reinit(method="GET")
+        steps, finished, exc, delivered = split.drive(r, [wire], close=not delimited, idle=1)
+        if exc is not None:
+            bad("raises:%s|%s" % (type(exc).__name__, innermost(exc)), "Respondent.parse raised %r on %r" % (exc, wire))
+            return "parse-raises"
+        if not finished:
+            bad("incomplete", "client still waits after the complete response %r" % wire)
+            return "incomplete"
+        if r.errored:
+            bad("errored", "client rejects the response: %s (wire %r)" % (r.error, wire))
+            return "errored"
+        code, sep, reason = status.partition(" ")
+        if r.status != int(code) or r.reason != reason:
+            bad("status", "status %r parsed as %r %r" % (status, r.status, r.reason))
+        for k, v in hdrs:
+            if r.headers.get(k.lower()) != v:
+                bad("headers", "header %s: %r parsed as %r" % (k, v, r.headers.get(k.lower())))
+        if bytes(r.body) != body:
+            bad("body", "body %r parsed as %r (wire %r)" % (body, bytes(r.body), wire))
+        if buf:
+            bad("leftover", "%d bytes %r left in the client's receive buffer after the response" % (len(buf), bytes(buf[:40])))
+            del buf[:]
+    return "ok"
+
+
+def work_pairs(arg):
+    core.use_repo()
+    from ioflo.base import storing
+    STORE[:] = [storing.Store(stamp=0.0)]
+    part = core.Part()
+    first_label, first_spec = PAIRKINDS[arg]
+    with core.watchdog(300):
+        for second_label, second_spec in PAIRKINDS:
+            for chunkables in ((True, True), (True, False), (False, True), (False, False)):
+                first_delimited = chunkables[0] or first_spec[0] == "err" or first_spec[2]
+                if not first_delimited:
+                    continue     # an undelimited first response ends the connection: no second response on it
+                case = "%s -> %s chunkable=%s,%s" % (first_label, second_label, chunkables[0], chunkables[1])
+                out = pair_case(case, (first_spec, second_spec), chunkables, part,
+                                dict(direction="response-pair", first=first_label, second=second_label,
+                                     chunkable=list(chunkables),
+                                     how="one serving.Responder: service() until ended, reset(environ=..., chunkable=...), service() again; "
+                                         "one clienting.Respondent: parse, makeParser(), reinit(method='GET'), parse"))
+                part.evaluations += 1
+                part.nontrivial("pair " + case)
+                part.outcome("response-reused:%s:%s" % (second_label, out))
+        part.sample(dict(direction="response-pair", case=case))
+    return part
+
+
 def work(item):
     if item[0] == "req":
         return work_requests(item[1])
+    if item[0] == "pair":
+        return work_pairs(item[1])
     return work_responses(item[1])
 
 
 def run():
     ck = core.Check("C30", "exploration", META["technique"])
     items = [("req", (m, p)) for m in METHODS for p in PATHS] + [("rsp", "normal"), ("rsp", "errors")]
+    items += [("pair", i) for i in range(len(PAIRKINDS))]
     ck.merge(core.pmap(work, items))
     ck.coverage_extra = dict(request_dimensions=dict(methods=len(METHODS), paths=len(PATHS), qarg_sets=len(qarg_sets()),
                                                      header_sets=len(HEADERSETS), bodies=len(bodies())),
                              response_dimensions=dict(statuses=len(STATUSES) + 1, header_sets=len(RHEADERS), body_kinds=len(BODYKINDS),
                                                       content_length=2, chunkable=2, error_sites=len(ERR_SITES),
-                                                      error_statuses=len(ERR_STATUS), error_header_sets=len(ERR_HEADERS)))
+                                                      error_statuses=len(ERR_STATUS), error_header_sets=len(ERR_HEADERS)),
+                             reused_responder_pairs=dict(response_kinds=[k for k, v in PAIRKINDS], ordered_pairs=len(PAIRKINDS) ** 2,
+                                                         chunkable_combinations=4))
     ck.assumptions = [
         "query and form arguments are compared through urllib.parse.parse_qsl(keep_blank_values=True) of QUERY_STRING / the urlencoded body; values are compared as str(value)",
         "GET requests carry no body (Requester.build: 'do not send body on GET'), so the expected server-side body for GET is empty whatever body/data/fargs were given",
         "PATH_INFO is compared with the parser's unquoted unicode path (consistency of the environ with the parsed request), not with the PEP 3333 latin-1 convention",
         "a raised HTTPError must reach the client as status = error.status, reason = error.reason, body = error.render(), headers including error.headers, wherever the application raises it before the head is sent (at call, at the first next(), after an empty yield)",
         "responses without Content-Length on a non-chunkable (HTTP/1.0) exchange are read until close: Respondent.close() after the bytes",
+        "reused Responder: the second response is produced after Responder.reset(environ=..., chunkable=...) exactly as Valet.serviceReqs does for "
+        "the next request on a persistent connection (chunkable = request is HTTP/1.1); the client Respondent is re-armed with makeParser() and "
+        "reinit(method=...) as Patron does; pairs whose first response is not delimited (no Content-Length, not chunkable) are skipped because "
+        "that response ends the connection; response bodies are read when each response completes",
         "auto-added headers (Host, Accept-Encoding, Server, Date, Transfer-Encoding) are not compared except Host",
     ]
     return ck.finish(
         rule="every element of methods x paths x query-arg sets x header sets x bodies (requests) and statuses x header sets x body kinds x "
-             "content-length x chunkable plus error sites x error statuses x error headers x chunkable (responses); each combination is a "
-             "distinct non-trivial case",
+             "content-length x chunkable plus error sites x error statuses x error headers x chunkable (responses), and every ordered pair of "
+             "the 12 response kinds x 4 chunkable combinations on one reused Responder; each combination is a distinct non-trivial case",
         exhaustive=True)
 
 
